@@ -40,6 +40,13 @@ Proof.
 Qed.
 Print Assumptions java_interp_agree.
 
+(* Integer constants: whatever gj0BInt emits for a big-integer constant v - BigInteger.ZERO / ONE,
+   BigInteger.valueOf(<int literal as jcLiteralInteger prints it>) up to the regenerated length threshold, or
+   new BigInteger("<digits>") - is accepted by javac and denotes exactly v, for EVERY integer v, immediate or boxed. *)
+Theorem java_bint_literal_exact : forall small v, denote_blit (emit_bint java_bint_params small v) = Some v.
+Proof. exact java_bint_literal_exact_l. Qed.
+Print Assumptions java_bint_literal_exact.
+
 (* the hypotheses are satisfiable: SIntQuo on (-7, 2) is typed, in the domain, inside the side
    condition, and 2^31 + 1 is outside it *)
 Example ex_fits : typed (fst (sop_sig SIntQuo)) [(-7)%Z; 2%Z] /\ in_dom SIntQuo [(-7)%Z; 2%Z] = true
